@@ -65,7 +65,7 @@ def body(case, acc):
     # pyjelly's own full parse returns (a decoder defect would otherwise be on both sides of the comparison)
     full = {"generic": scen.norm_any(ref.events)}
     if rdflib_ok:
-        full["rdflib"] = scen.norm_any([e if e[0] == "prefix" else [T.rdflib_canon(t) for t in e] for e in ref.events])
+        full["rdflib"] = scen.norm_any(ref.events)
     full_grouped = [scen.norm_any([e for e in fe if e[0] != "prefix"]) for fe in ref.frame_events]
     only_k = case.get("k")
     sh = case_hash(case["src"]) if acc is not None else None
